@@ -19,7 +19,9 @@ REQUIRED = [
     "PdsVerif.C13." + n
     for n in """uvar_roundtrip var_roundtrip ulong_roundtrip fold_unfold
     word_reader_refines_bits decodeFile_eq_decodeBits monitor_irrelevant
-    decode_encode bad_cmd bad_version bad_version_file bad_type""".split()
+    decode_encode decode_encode_file decode_encode_monitored no_fuel_error fuel_irrelevant
+    encoder_exists encoder_exists_ulaw ulaw_outward_rows_bijective
+    early_end early_end_file early_end_magic_only bad_cmd bad_version bad_version_file bad_type""".split()
 ]
 RULE = (
     "streams written by an independent randomised Python shorten encoder: version 1-2, 1-4 channels, allocated block "
@@ -597,7 +599,7 @@ def run(ctx, driver):
             add("sph.decode 1 %s" % body.hex(), fn)
 
     # ---- generated valid streams -------------------------------------------------------------
-    n = ctx.scale(220, 5000)
+    n = ctx.scale(600, 8000)
     profiles = ["valid"] * 10 + ["shrinking", "qlpc_short", "qlpc_anywhere", "wide", "othertype"]
     streams = []
     for i in range(n):
@@ -657,7 +659,7 @@ def run(ctx, driver):
             add("prog.sem %d %s" % (convert, prog_tokens(s)), fs)
 
     # ---- malformed streams -------------------------------------------------------------------
-    nm = ctx.scale(160, 3000)
+    nm = ctx.scale(400, 5000)
     base = [s for s in streams if s.in_scope and "beyond_int32" not in s.classes] or streams
     for i in range(nm):
         if ctx.out_of_time() or not base:
@@ -669,8 +671,11 @@ def run(ctx, driver):
         expect_err = True
         extra = dict(malformed=kind)
         if kind == "trunc":
-            pos_class = r.choice(["first_word", "header", "middle", "last_word", "one_short", "exact", "beyond"])
-            if pos_class == "first_word":
+            pos_class = r.choice(["magic_only", "first_word", "header", "middle", "last_word", "one_short", "exact",
+                                  "beyond"])
+            if pos_class == "magic_only":
+                cut = 4
+            elif pos_class == "first_word":
                 cut = r.randint(5, 8)
             elif pos_class == "header":
                 cut = r.randint(5, min(needed - 1, 5 + 12))
